@@ -42,7 +42,7 @@ m = {
     ],
     "checks": checks,
     "not_applicable": na,
-    "notes": "All checks: ./check <id> [--tier quick|thorough] [--replay file]; exit 0 held / 1 VIOLATION / 2 infrastructure trouble (never dressed as a violation). Known findings: /verif/known_findings.json. See DESIGN.md.",
+    "notes": "All checks: ./check <id> [--tier quick|thorough] [--replay file]; exit 0 held / 1 VIOLATION / 2 infrastructure trouble (never dressed as a violation). Known findings: /verif/known_findings.json. Invocations build into private directories under .build/ and may run concurrently. Run from /verif. See DESIGN.md.",
 }
 json.dump(m, open(os.path.join(HERE, "MANIFEST.json"), "w"), indent=1)
 print("MANIFEST.json: %d checks, %d not_applicable" % (len(checks), len(na)))
